@@ -7,10 +7,11 @@ pub mod c05;
 pub mod c06;
 pub mod c07;
 pub mod c08;
+pub mod c09;
 pub mod c20;
 pub mod codec_common;
 pub mod typed;
 
 pub fn registry() -> Vec<PropMeta> {
-    vec![c01::meta(), c03::meta(), c04::meta(), c05::meta(), c06::meta(), c07::meta(), c08::meta(), c20::meta()]
+    vec![c01::meta(), c03::meta(), c04::meta(), c05::meta(), c06::meta(), c07::meta(), c08::meta(), c09::meta(), c20::meta()]
 }
